@@ -100,6 +100,28 @@ def containment(ctx):
                 if dotted(e) == 'DecodeError':
                     continue
             offenders.append(node)
+        # operations that can not fail on bytes / on a container that was just tested non-empty are not ways out
+        TOTAL = {'strip', 'lstrip', 'rstrip', 'startswith', 'endswith', 'split', 'partition', 'rpartition', 'join', 'append', 'extend', 'lower', 'upper'}
+
+        def harmless(node):
+            st = node.ast
+            if st is None or isinstance(st, ast.Raise):
+                return False
+            calls = [c for c in ast.walk(st) if isinstance(c, ast.Call)]
+            if any(isinstance(x, (ast.Subscript, ast.BinOp)) for x in ast.walk(st)):
+                return False
+            for c in calls:
+                a = call_attr(c)
+                if a in TOTAL:
+                    continue
+                if a in ('popleft', 'pop') and not c.args:
+                    recv = src(c.func.value)
+                    tests = [t.id for t in cfg.nodes if t.kind == 'test' and isinstance(t.ast, ast.expr) and recv in src(t.ast)]
+                    if tests and all(cfg.dominates(tests, i) for i in [node.id]):
+                        continue
+                return False
+            return bool(calls) or isinstance(st, ast.expr)
+        offenders = [o for o in offenders if not harmless(o)]
         anchored = q == TCPH
         construct = f'{nm.qualname}:leaves only via DecodeError'
         if not offenders:
@@ -178,27 +200,36 @@ def framing(ctx):
             else:
                 ctx.undecided(f'{gm.qualname}:return form', r, f'`{src(v)}` not recognised', gm)
     nm = m.method(TCPH, 'next_message', inherited=False)
-    ctx.analysed(nm)
-    ok = False
-    for n in body_walk(nm.node):
-        if isinstance(n, ast.Assign) and isinstance(n.value, ast.Call) and call_name(n.value) == 'get_msg':
-            t = n.targets[0]
-            if isinstance(t, ast.Tuple) and len(t.elts) == 2 and src(t.elts[1]) == 'self.data' and \
-                    n.value.args and src(n.value.args[0]) == 'self.data':
-                ok = True
-    ctx.check(ok, f'{nm.qualname}:remainder goes back into the buffer', nm.node, 'message, self.data = get_msg(self.data)',
-              'the remainder returned by get_msg is not stored back into self.data', nm)
     ing = m.method(TCPH, 'ingest', inherited=False)
+    ctx.analysed(nm)
     ctx.analysed(ing)
-    ok = False
-    for n in body_walk(ing.node):
-        if isinstance(n, ast.AugAssign) and isinstance(n.op, ast.Add) and src(n.target) == 'self.data':
-            ok = True
-        if isinstance(n, ast.Assign) and src(n.targets[0]) == 'self.data' and isinstance(n.value, ast.BinOp) \
-                and isinstance(n.value.op, ast.Add) and src(n.value.left) == 'self.data':
-            ok = True
-    ctx.check(ok, f'{ing.qualname}:appends to the buffer', ing.node, 'self.data += newdata',
-              'ingest does not append to self.data: bytes of a partially received line are dropped', ing)
+    # whatever the design of the buffer: the bytes handed to ingest() end up in the handler's state (none is dropped), and lines
+    # are cut at EOL only (bytes.splitlines also cuts at a lone CR, VT, FF, FS ... - one request would become two)
+    icfg = CFG(ing.node, m, ing.module)
+    prm = ing.node.args.args[1].arg if len(ing.node.args.args) > 1 else 'newdata'
+    lost = received_bytes_lost(icfg, ing.node, lambda t: t.startswith('self.'), lambda c: False, initial=[prm])
+    ctx.check(not lost, f'{ing.qualname}:appends to the buffer', ing.node, 'every received byte is kept in the state of the handler',
+              'ingest can return without having stored the bytes it was given: the bytes of a partially received line are dropped', ing)
+    for g in (nm, ing):
+        for c in calls_in(g.node):
+            if call_attr(c) in ('splitlines',) or (call_attr(c) in ('split', 'rsplit', 'partition', 'rpartition') and c.args and src(c.args[0]) not in ('EOL',)
+                                                   and any('data' in src(x) for x in ast.walk(c.func.value))):
+                ctx.bad(f'{g.qualname}:lines are cut at EOL only', c, f'`{src(c)}` cuts the received bytes at other places than the line feed (splitlines: also a lone CR, VT, FF, '
+                        'FS, GS, RS, NEL): a request containing such a byte is taken for two requests and gets two replies', g)
+    uses_get_msg = any(call_name(c) == 'get_msg' for c in calls_in(nm.node))
+    if not uses_get_msg:
+        ctx.undecided(f'{nm.qualname}:remainder goes back into the buffer', nm.node, 'de-framing does not go through get_msg: the buffer discipline of this '
+                      'design is not decided (conservation of the ingested bytes and the separator are)', nm)
+    else:
+        ok = False
+        for n in body_walk(nm.node):
+            if isinstance(n, ast.Assign) and isinstance(n.value, ast.Call) and call_name(n.value) == 'get_msg':
+                t = n.targets[0]
+                if isinstance(t, ast.Tuple) and len(t.elts) == 2 and src(t.elts[1]) == 'self.data' and \
+                        n.value.args and src(n.value.args[0]) == 'self.data':
+                    ok = True
+        ctx.check(ok, f'{nm.qualname}:remainder goes back into the buffer', nm.node, 'message, self.data = get_msg(self.data)',
+                  'the remainder returned by get_msg is not stored back into self.data', nm)
     dm = m.func(f'{IFACE}.decode_msg')
     ctx.analysed(dm)
     sp = [c for c in calls_in(dm.node) if call_attr(c) == 'split']
@@ -355,6 +386,11 @@ def replies_echo_specifier(ctx):
                         inbody = any(ret is x for st in a.body for x in ast.walk(st))
                         if (src(a.test) == spec and not inbody) or (src(a.test) == f'not {spec}' and inbody):
                             falsy = True
+                # ... also after a guard clause `if specifier: return (..., specifier, ...)`: decided on the CFG
+                if not falsy and isinstance(ret, ast.stmt):
+                    fcfg = CFG(fi.node, m, fi.module)
+                    side = sides_with_fact(fcfg, lambda a, tv: not tv and isinstance(a, ast.Name) and a.id == spec)
+                    falsy = bool(fcfg.ids(ret)) and set(fcfg.ids(ret)) <= side
                 ctx.check(falsy, f'{fi.qualname}:echoes specifier', ret, 'None only where the request had no specifier',
                           f'`{src(tup)}` drops the specifier of the request: the reply to `{action} <spec>` cannot be '
                           'matched by a client that keys pending requests by (reply action, specifier)', fi)
@@ -425,7 +461,9 @@ def deframer_has_no_other_early_out(ctx):
     cfg = CFG(nm.node, m, nm.module)
     gm = [i for c in calls_in(nm.node) if call_name(c) == 'get_msg' for i in cfg.node_of(c)]
     if not gm:
-        raise AnchorMissing('get_msg call in next_message not found', violation=f'{nm.qualname}:de-framing by get_msg')
+        # another de-framing design (lines cut when the bytes arrive): C07.R3 decides conservation and separator for it
+        ctx.undecided(f'{nm.qualname}:no message only when get_msg found none', nm.node, 'next_message does not call get_msg', nm)
+        return
     rets = [n for n in body_walk(nm.node) if isinstance(n, ast.Return) and (n.value is None or (isinstance(n.value, ast.Constant) and n.value.value is None))]
     for r in rets:
         guards = [src(a.test) for a in ancestors(r) if isinstance(a, ast.If)]
